@@ -23,7 +23,7 @@ impl WorkTokenizedBuffer {
     }
     /// Mirror of the shadow token list for the one real observer that cannot be stubbed
     /// (`iter_token_infos` returns an opaque iterator type).
-    pub(crate) fn verif_set_tokens(&mut self, toks: &[TokenInfo; 3], n: usize) {
+    pub(crate) fn verif_set_tokens(&mut self, toks: &[TokenInfo; 4], n: usize) {
         self.token_infos.clear();
         self.token_infos.extend_from_slice(toks);
         self.token_infos.truncate(n);
